@@ -28,6 +28,7 @@ from vlib.build import BuildError
 
 from tools.gen import loop as gen_loop
 from tools.gen import fds as gen_fds
+from tools.gen import fdpaths as gen_fdpaths
 from tools.gen.csrc import ExtractError
 
 sys.path.insert(0, os.path.join(VERIF, "harness", "C20"))
@@ -50,7 +51,9 @@ THEOREMS = ["JanetModel.Props.C20." + t for t in (
     "kill_in_callback_window_hits_reaped_pid",
     # session 4: the self pipe (edge-triggered registration, draining handler): nothing written by another thread is ever stranded
     "selfpipe_cfg_drains", "selfpipe_handle_conserve", "selfpipe_handle_drains", "selfpipe_conservation", "selfpipe_no_event_stranded",
-    "selfpipe_all_delivered_after_poll", "selfpipe_gen_no_event_stranded", "bounded_read_strands_events")]
+    "selfpipe_all_delivered_after_poll", "selfpipe_gen_no_event_stranded", "bounded_read_strands_events",
+    # session 4: every control-flow path of 10 descriptor-creating functions, extracted from the source, replayed in Lean
+    "fd_paths_ok", "fd_paths_sites_in_table", "fd_paths_cover_sites", "fd_run_count", "fd_paths_balanced")]
 
 ENV = dict(os.environ, ASAN_OPTIONS="detect_leaks=0:abort_on_error=0", UBSAN_OPTIONS="print_stacktrace=1")
 SCRATCH = "/var/tmp/janet-verif-c20"
@@ -321,15 +324,21 @@ def run(ctx):
         gen_facts = gen_loop.extract(ctx.build.tree)
         ctx.gen("Fds.lean", gen_fds.render(ctx.build.tree))
         fd_facts = gen_fds.extract(ctx.build.tree)
+        ctx.gen("FdPaths.lean", gen_fdpaths.render(ctx.build.tree))
+        path_facts = gen_fdpaths.extract(ctx.build.tree)
     except ExtractError as e:
-        gen_facts = fd_facts = None
-        broken.append("translator tools/gen/loop.py / fds.py: %s" % e)
+        gen_facts = fd_facts = path_facts = None
+        broken.append("translator tools/gen/loop.py / fds.py / fdpaths.py: %s" % e)
         ctx.broken.append(broken[-1])
     except BuildError as e:
         ctx.violation("build-failed", {"kind": "build", "error": str(e)[-3000:]}, found=False, what="tree does not build")
         return ctx.finish("proof", {"evaluations": 0, "distinct_nontrivial": 0, "rule": "-", "samples": []})
     # (B,C) kernel check + axiom audit
     broken += ctx.obligations("JanetModel.Props.C20", THEOREMS)
+    if broken and path_facts:
+        for w in gen_fdpaths.diagnose(path_facts["paths"])[:6]:
+            broken.append("descriptor path (theorem fd_paths_ok): " + w)
+            ctx.say(broken[-1])
     if broken and fd_facts:
         # name the descriptor / child sites that differ from the table the model was last proved against (committed Gen/Fds.lean)
         try:
@@ -484,6 +493,8 @@ def run(ctx):
         "correspondence_events": corr_events, "correspondence_steps_compared": corr_snaps, "correspondence_mixes_differing": len(corr_diffs),
         "generated": {"tchan_unroot": gen_facts["tchan_unroot"], "close_notifies_both": gen_facts["close_notifies_both"],
                       "fd_sites": dict((k, sum(1 for x in fd_facts["fd"] if x[2] == k)) for k in ("create", "close", "wrap", "raise")) if fd_facts else None,
+                      "fd_paths": len(path_facts["paths"]) if path_facts else None, "fd_path_functions": path_facts["functions"] if path_facts else None,
+                      "selfpipe": [gen_facts["selfpipe_batch"], gen_facts["selfpipe_recur"], gen_facts["selfpipe_edge"]],
                       "child_sites": len(fd_facts["child"]) if fd_facts else None, "thread_sites": len(fd_facts["thread"]) if fd_facts else None,
                       "selfpipe_dec_needs_cb": gen_facts["selfpipe_dec_needs_cb"], "proc_gc_wait_options": gen_facts["proc_gc_wait_options"], "counter_sites": len(gen_facts["counter"]), "root_sites": len(gen_facts["roots"])} if gen_facts else None,
     }
